@@ -60,11 +60,12 @@ intermediate value of the nodes `r` found is a graph output or used outside them
 The unrestricted statement is refuted by `match_complete_full_refuted` (BacktrackingOr, D11);
 patterns with several output nodes are not covered (their candidate filter is finding C06-F5). -/
 theorem match_complete_partial (E : Env) (A : Assign) (root : NodeId) (np0 : NPId)
-    (hno : E.p.noOr = true) (htopo : E.p.topo) (hsingle : E.p.outputNodes = [np0])
+    (hno : E.p.noOr = true) (htopo : E.p.topo) (hnc : E.fixF2 = false ∨ NamedVarsUnchecked E.p)
+    (hsingle : E.p.outputNodes = [np0])
     (hroot : OutputsOfRoot E.p np0) (hinst : Instance E root A) (hchk : ChecksPass E.p A) :
     ∃ r, patternMatch E root false = some r ∧
       ((patternMatch E root true).isSome = true ↔ Removable E.g r.nodes r.outputs) :=
-  patternMatch_complete_single E A root np0 hno htopo hsingle hroot hinst hchk
+  patternMatch_complete_single E A root np0 hno htopo hnc hsingle hroot hinst hchk
 
 /-- **Completeness — OR-free patterns with several output nodes, outside finding C06-F5.**
 If every output node after the first has an operator identifier and no host node carries an
@@ -75,13 +76,14 @@ on it, hence `SimplePatternMatcher.match` and `Pattern.match` report a match (po
 succeeding combination, cf. `match_deterministic`).  Soundness for several output nodes is already
 part of `match_sound_partial`. -/
 theorem match_complete_multi_partial (E : Env) (A : Assign) (root : NodeId)
-    (hno : E.p.noOr = true) (htopo : E.p.topo) (har : E.fixF1 = true ∨ OutputArityOk E.p E.g)
+    (hno : E.p.noOr = true) (htopo : E.p.topo) (hnc : E.fixF2 = false ∨ NamedVarsUnchecked E.p)
+    (har : E.fixF1 = true ∨ OutputArityOk E.p E.g)
     (houts : OutputsOfOutputNodes E.p) (hid : LaterOutputsIdentified E.p) (hov : NoOverloads E.g)
     (hchk : E.p.checksOk = true) (hinst : Instance E root A) :
     (∃ combo, combo ∈ combos E root ∧ (multiMatch E false combo).ok = true) ∧
       (patternMatch E root false).isSome = true :=
-  ⟨let ⟨c, h1, h2, _⟩ := matcher_complete_multi E A root hno htopo har houts hid hov hinst; ⟨c, h1, h2⟩,
-   patternMatch_complete_multi E A root hno htopo har houts hid hov hchk hinst⟩
+  ⟨let ⟨c, h1, h2, _⟩ := matcher_complete_multi E A root hno htopo hnc har houts hid hov hinst; ⟨c, h1, h2⟩,
+   patternMatch_complete_multi E A root hno htopo hnc har houts hid hov hchk hinst⟩
 
 /-- **Determinism / first combination in graph order.**  A successful match is the result of
 `_multi_match` on one candidate combination that starts with `root`, and every combination that
@@ -285,7 +287,7 @@ def f1 : Env :=
 /-- **Soundness failed in general for the matcher before repair 778bd07** (finding C06-F1, reproduced on the real matcher at that revision): a pattern
 node that asks for more outputs than the node has makes `_match_node` return `False` without
 failing the match, and the still-truthy `MatchResult` is reported (with no outputs). -/
-theorem match_sound_full_refuted_extra_outputs :
+theorem match_sound_extra_outputs_prefix_refuted :
     ¬ (∀ (E : Env) (root : NodeId) (rm : Bool) (r : Result), E.fixF1 = false → E.p.noOr = true →
         E.p.topo → patternMatch E root rm = some r → ∃ A, Instance E root A) := by
   intro h
@@ -516,14 +518,22 @@ example : multiEnv.p.outputNodes = [0, 1] ∧ multiEnv.p.noOr = true ∧ multiEn
     · exact ⟨0, rfl, h0⟩
     · exact ⟨1, rfl, h1⟩
 
+example : NamedVarsUnchecked okEnv.p ∧ NamedVarsUnchecked multiEnv.p := by
+  constructor <;>
+  · intro P hP vp hin _
+    simp [okEnv, multiEnv, mkNode] at hP
+    rcases hP with rfl | rfl <;> simp [xVar] at hin <;> (try rcases hin with rfl | rfl) <;> (try subst hin) <;> rfl
+
 def f2Pat : GPat :=
   { inputs := [some "x"], cond := true,
     nodes := [mkNode "Neg" [some (.var 1 (some "x") true false (some false))] 1],
     outputs := [.out 0 0] }
 
-/-- the model reproduces finding C06-F2 (the check of a *named* `Var` is never evaluated):
-`Neg(Var("x", check=False))` matches -/
-example : (patternMatch { p := f2Pat, g := okEnv.g, close := closeEq } 0 true).isSome = true := by
+/-- finding C06-F2 (fixed in /repo 9ec39fb): before the repair (`fixF2 := false`) the check of a
+*named* `Var` was never evaluated and `Neg(Var("x", check=False))` matched; the repaired revision
+(default) runs the check -/
+example : (patternMatch { p := f2Pat, g := okEnv.g, close := closeEq, fixF2 := false } 0 true).isSome = true ∧
+    (patternMatch { p := f2Pat, g := okEnv.g, close := closeEq } 0 true).isSome = false := by
   decide
 
 def addPat : GPat :=
